@@ -116,7 +116,7 @@ def run(tier: str, replay: str | None = None):
     else:
         for i, c in enumerate(corpus["cases"]):
             mods.append({"id": f"corpus{i}", "src": c["src"], "calls": {c["fn"]: c["args"]}, "corpus": c})
-        n_mod, per = (36, 10) if tier == "quick" else (400, 10)
+        n_mod, per = (36, 10) if tier == "quick" else (300, 10)
         hist = {}
         for i in range(n_mod):
             src, calls, ptypes = G.gen_module(rng, per, hist)
